@@ -139,10 +139,28 @@ def run_storm(arg):
                 f.write(struct.pack("hi32s4s32s256shhiii4i20s", 7, 1000 + n, b"pts/%d" % n, b"%d" % n, b"user%d" % n, b"host%d.example.org" % n, 0, 0, 0, 0, 0, 10, 1, 2, 3, b""))
         cmd += ["--utmp-from", up]
     try:
-        r = subprocess.run(cmd, env=env, capture_output=True, text=True, cwd=work, timeout=1200)
+        r = subprocess.run(cmd, env=env, capture_output=True, text=True, cwd=work, timeout=300)
     except subprocess.TimeoutExpired:
+        # the storm process itself did not finish: are its threads all parked in a lock wait (a parent thread that never gets
+        # the registry lock back after a fork), or is it just slow?
+        states = []
+        for d in os.listdir("/proc"):
+            if not d.isdigit():
+                continue
+            try:
+                with open("/proc/%s/cmdline" % d, "rb") as f:
+                    cl = f.read()
+                if work.encode() not in cl or b"vforkstorm" not in cl:
+                    continue
+                for t in os.listdir("/proc/%s/task" % d):
+                    with open("/proc/%s/task/%s/syscall" % (d, t)) as f:
+                        states.append(f.read().split()[0])
+            except OSError:
+                continue
         kill_stragglers(work)
-        return dict(harness_timeout=1, fname=fname, out=out)
+        if states and all(x in ("202", "61", "247") for x in states):
+            return dict(parent_stuck=1, fname=fname, out=out, fmt=fmt, threads=threads, task_syscalls=states[:20])
+        return dict(harness_timeout=1, fname=fname, out=out, task_syscalls=states[:20])
     kill_stragglers(work)
     ev = None
     for line in r.stdout.splitlines():
@@ -177,6 +195,10 @@ def storm_arm(bld, tr, rng, root, F, tot):
             jobs.append((bld, fname, fmt, "file", 4, 5, 30000, root, idx)); idx += 1
     for ev in pmap(run_storm, jobs, 8):
         tot["storm_runs"] = tot.get("storm_runs", 0) + 1
+        if ev.get("parent_stuck"):
+            F.violation("C10:storm:parent-threads-stuck", "the forking process itself never finished: all its threads sit in a lock wait after forks made while %d threads were logging (format %s, output %s)" % (
+                ev["threads"], ev["fname"], ev["out"]), ev)
+            continue
         if ev.get("harness_timeout") or ev.get("no_event"):
             tot["storm_inconclusive"] = tot.get("storm_inconclusive", 0) + 1
             log("[C10] inconclusive storm run: %s" % (ev,))
